@@ -763,7 +763,7 @@ def hedge_loop_ob(model_kind, H, aspects=('reads', 'last', 'shape', 'prev'), pro
         unk = [r_ for r_ in rows if r_[1] == 'unknown']
         if bad:
             return Verdict('refuted', 'z3 + loop cut', time.time() - t0, '; '.join('%s %s' % (r_[0], r_[2]) for r_ in bad)[:600], witness={'failed': [r_[0] for r_ in bad]}, sample=sample,
-                           replay=_replay_prev() if any('[prev]' in r_[0] for r_ in bad) else _replay_hedger())
+                           replay=_replay_prev() if any(('[prev]' in r_[0] or 'prev_output' in r_[0]) for r_ in bad) else _replay_hedger())
         if unk:
             return Verdict('unknown', 'z3', time.time() - t0, '; '.join('%s %s' % (r_[0], r_[2]) for r_ in unk)[:600], sample=sample)
         return Verdict('proved', 'z3 (LIA/UF, quantified loop invariant) + ghost footprint', time.time() - t0, '%d path(s), %d VCs' % (len(paths), len(rows)), sample=sample)
